@@ -246,11 +246,17 @@ func cmdCheck(args []string) {
 	}
 	dischargeAll(vcs, tmo, 16, agree)
 	if writeOpen {
+		openSecs := 8.0
+		if v := os.Getenv("GOVC_OPEN_SECS"); v != "" {
+			fmt.Sscanf(v, "%g", &openSecs)
+		}
 		open := map[string][]string{}
 		n := 0
 		for _, t := range tvcs {
 			for _, ob := range t.vc.obligs {
-				if !okOblig(ob) {
+				// open = does not discharge, or discharges only slowly (> 8 s by default): a slow obligation is an
+				// unstable one and would turn into a timeout (a false alarm) on a loaded machine
+				if !okOblig(ob) || (ob.Secs > openSecs && ob.Solver != "trivial") {
 					open[t.vc.fnName] = append(open[t.vc.fnName], ob.Name)
 					n++
 				}
@@ -428,6 +434,16 @@ func matchFinding(fs []Finding, id, fn, ob string) *Finding {
 		}
 		if f.Property == id && f.Fn == fn && f.Obligation == ob {
 			return f
+		}
+		// a finding about a whole enumerated input family of a bounded harness names the family by prefix
+		if f.Property == id && f.Fn == fn && strings.Contains(f.Obligation, "*") {
+			parts := strings.Split(f.Obligation, "*")
+			for i := range parts {
+				parts[i] = regexp.QuoteMeta(parts[i])
+			}
+			if ok, _ := regexp.MatchString("^"+strings.Join(parts, ".*")+"$", ob); ok {
+				return f
+			}
 		}
 	}
 	return nil
